@@ -7,7 +7,7 @@ from harness.execute import execute, S0
 
 PROPERTY = 'C09'
 RULE = ('Exhaustive grid: operator in {+ - * / % == != < <= > >= and or, unary + - not, is int, is byte, is bool, implicit '
-        'byte->int, bool->byte->int, not over every comparison/logic operator; also with one operand written as a literal in the source, '
+        'byte->int, bool->byte->int, not over every comparison/logic operator, an arithmetic result (+ - *) compared with 0 / 1 / -1 on either side; also with one operand written as a literal in the source, '
         'including positive literals beyond the signed range} x operand type combination {int*int, byte*byte, byte*int, int*byte, bool*bool} x all '
         'ordered pairs from a per-word-size boundary grid (0, +-1, 2, 127/128, 255/256/257, -128/-129, -255/-256, MIN, '
         'MIN+1, MAX, MAX-1 + seeded random values; bytes 0,1,2,127,128,254,255 + random) x usage position {value, recast '
@@ -255,16 +255,28 @@ def check_group(stats, ws, kind, op, ta, tb, position, seed):
     exps = []
     keep = []
     notbin = kind == 'notbin'
+    arithcmp = kind == 'arithcmp'
+    if arithcmp:
+        op1, cmp_, lit_s, side = op.split('|')
+        lit_v = int(lit_s)
     for x, y in pairs:
-        res = unop(op, ta, x, ws) if unary else binop(op, x, y, ws)
+        if arithcmp:
+            inner = binop(op1, x, y, ws)[1]
+            res = binop(cmp_, inner, lit_v, ws) if side == 'r' else binop(cmp_, lit_v, inner, ws)
+        else:
+            res = unop(op, ta, x, ws) if unary else binop(op, x, y, ws)
         if res is None:
             continue
         if notbin:
             res = ('bool', not res[1])
         keep.append((x, y))
         exps.append(expect_for(position, res))
-    expr = UNARY_SRC[op] if unary else ('not (x %s y)' % op if notbin else 'x %s y' % op)
-    rty = 'bool' if notbin else (unop(op, ta, keep[0][0], ws) if unary else binop(op, keep[0][0], keep[0][1], ws))[0]
+    if arithcmp:
+        lit_src = '(%s)' % lit('int', lit_v) if lit_v < 0 else str(lit_v)
+        expr = ('x %s y %s %s' % (op1, cmp_, lit_src)) if side == 'r' else ('%s %s x %s y' % (lit_src, cmp_, op1))
+    else:
+        expr = UNARY_SRC[op] if unary else ('not (x %s y)' % op if notbin else 'x %s y' % op)
+    rty = 'bool' if (notbin or arithcmp) else (unop(op, ta, keep[0][0], ws) if unary else binop(op, keep[0][0], keep[0][1], ws))[0]
     src = program(ta, tb, [p[0] for p in keep], [p[1] for p in keep], body_for(position, expr, rty), unary)
     r = execute(src, [], ws=ws, S=S0, budget=40_000_000)
     stats.evaluated(len(keep))
@@ -314,6 +326,12 @@ def groups():
         out.append(('notbin', op, 'int', 'int'))
         if op in BIN_CMP:
             out.append(('notbin', op, 'byte', 'int'))
+    # an arithmetic result compared with a small literal without parentheses (precedence puts the arithmetic first): the
+    # comparison must look at the wrapped result, whatever shortcut the compiler takes for `x - y < 0`
+    for op1 in ('+', '-', '*'):
+        for cmp_ in BIN_CMP:
+            for L, side in ((0, 'r'), (1, 'r'), (-1, 'r'), (0, 'l')):
+                out.append(('arithcmp', '%s|%s|%d|%s' % (op1, cmp_, L, side), 'int', 'int'))
     # one operand is a literal in the source (immediates take different code paths than run-time operands)
     for op in BIN_ARITH + BIN_CMP:
         for ta in ('int', 'byte'):
@@ -340,6 +358,8 @@ def run_shard(desc, seed, tier):
         if gi % n != k:
             continue
         for position in POSITIONS:
+            if kind == 'arithcmp' and position not in ('value', 'if', 'defeat'):
+                continue
             if position in ('index', 'length') and (kind == 'notbin' or op in BIN_CMP or op in BIN_LOGIC or op in ('not', 'is bool')):
                 continue        # bool results narrow to 0/1 only: the index/length positions are about int and byte results
             v = check_group(stats, ws, kind, op, ta, tb, position, seed)
@@ -358,7 +378,7 @@ def replay(case):
         return v['message'] if v else None
     ws, kind, op, ta, tb, position, x, y = case['value']
     st_ = Stats()
-    if x is None:
+    if x is None or kind == 'arithcmp':
         v = check_group(st_, ws, kind, op, ta, tb, position, 1)
         return v['message'] if v else None
     unary = kind == 'unary'
